@@ -35,7 +35,7 @@ class EngineBase:
         cache = self.__dict__.setdefault('_hq', {})
         k = t.get_id()
         if k in cache:
-            return cache[k]
+            return cache[k][1]
         r = False
         todo = [t]
         seen = set()
@@ -48,7 +48,7 @@ class EngineBase:
                 r = True
                 break
             todo.extend(x.children())
-        cache[k] = r
+        cache[k] = (t, r)
         return r
 
     def feasible(self, cond):
